@@ -31,7 +31,7 @@ COMMIT_FUNCS = ("consume_sample", "insert_live_point", "increment")
 def site_key(chain, kind):
     """Stable identity of an injection site: the sampler-level statement in progress."""
     # chain is innermost -> outermost
-    loop_names = ("NestedSampler.nested_sampling_loop", "ImportanceNestedSampler.nested_sampling_loop")
+    loop_names = ("NestedSampler.nested_sampling_loop", "ImportanceNestedSampler.nested_sampling_loop", "FlowSampler.run_standard_sampler", "FlowSampler.run_importance_nested_sampler")
     outer = None
     for q, ln, src in chain:
         if q in loop_names:
@@ -44,6 +44,9 @@ def site_key(chain, kind):
                 break
     if outer is None:
         outer = (chain[0][0], chain[0][2])
+    if outer[0] == "NestedSampler.initialise" and chain[0][0] != outer[0]:
+        # the initialisation is one long statement (populate_live_points): add the innermost function
+        return f"{outer[0]}: {outer[1]} / in {chain[0][0]}"
     return f"{outer[0]}: {outer[1]}"
 
 
